@@ -1,6 +1,7 @@
 pub mod bridge;
 pub mod emit;
 pub mod engine;
+pub mod fuzzing;
 pub mod gen;
 pub mod props;
 pub mod refmodel;
